@@ -93,8 +93,186 @@ def accesses(body, where):
     return [(v, f, o) for _, v, f, o in out]
 
 
+# ---------------------------------------------------------------------------------------------- arithmetic shapes
+def strip_comments(t):
+    t = re.sub(r"/\*.*?\*/", " ", t, flags=re.S)
+    return re.sub(r"//[^\n]*", " ", t)
+
+
+NPOT_RE = re.compile(r"^\s*if\s*\(\s*v\s*==\s*0\s*\)\s*\{?\s*return\s+1\s*;\s*\}?\s*v\s*--\s*;\s*"
+                     r"((?:v\s*\|=\s*v\s*>>\s*\d+\s*;\s*)*)return\s+v\s*\+\s*1\s*;\s*$")
+
+
+def npot_shifts(cb):
+    """`nextPowerOfTwo` must be exactly `if (v == 0) return 1; v--; (v |= v >> K;)* return v + 1;` over a `std::size_t v`:
+    the list of K, in source order, is what the Lean model's nextPowerOfTwo is DEFINED from."""
+    m = re.search(r"static\s+std::size_t\s+nextPowerOfTwo\s*\(\s*std::size_t\s+v\s*\)\s*\{", cb)
+    if not m:
+        raise TranslateError("DynamicRingBuffer::nextPowerOfTwo is not `static std::size_t nextPowerOfTwo(std::size_t v)`")
+    body = strip_comments(cb[m.end():cxxscan.match_brace(cb, m.end() - 1)])
+    mm = NPOT_RE.match(body)
+    if not mm:
+        raise TranslateError("nextPowerOfTwo: body is not `if (v == 0) return 1; v--; v |= v >> K; ... return v + 1;`: %r" % " ".join(body.split()))
+    ks = [int(k) for k in re.findall(r">>\s*(\d+)", mm.group(1))]
+    if any(k >= 64 for k in ks):
+        raise TranslateError("nextPowerOfTwo: shift by %s on a 64-bit value" % ks)
+    return ks
+
+
+class _P:
+    """tiny expression parser: E := C ['?' E ':' E] ; C := A [('<'|'>') A] ; A := T {('-'|'+') T} ; T := name | number | '(' E ')'"""
+    def __init__(self, text, names, where):
+        self.t = re.findall(r"[A-Za-z_]\w*|\d+|[()?:<>+\-]|\S", text)
+        self.i = 0
+        self.names = names
+        self.where = where
+
+    def fail(self, why):
+        raise TranslateError("%s: cannot read expression `%s` (%s)" % (self.where, " ".join(self.t), why))
+
+    def peek(self):
+        return self.t[self.i] if self.i < len(self.t) else None
+
+    def eat(self, x=None):
+        tok = self.peek()
+        if tok is None or (x is not None and tok != x):
+            self.fail("expected %s at token %d" % (x, self.i))
+        self.i += 1
+        return tok
+
+    def expr(self):
+        c = self.cmp()
+        if self.peek() == "?":
+            if c[0] != "cmp":
+                self.fail("condition of ?: is not a comparison")
+            self.eat("?")
+            a = self.expr()
+            self.eat(":")
+            b = self.expr()
+            return ("ite", c[1], c[2], c[3], a, b)
+        if c[0] == "cmp":
+            self.fail("bare comparison")
+        return c
+
+    def cmp(self):
+        a = self.arith()
+        if self.peek() in ("<", ">"):
+            op = self.eat()
+            b = self.arith()
+            return ("cmp", op, a, b)
+        return a
+
+    def arith(self):
+        a = self.term()
+        while self.peek() in ("-", "+"):
+            op = self.eat()
+            b = self.term()
+            a = ("sub" if op == "-" else "add", a, b)
+        return a
+
+    def term(self):
+        tok = self.eat()
+        if tok == "(":
+            e = self.expr()
+            self.eat(")")
+            return e
+        if tok.isdigit():
+            return ("n", int(tok))
+        if re.match(r"[A-Za-z_]\w*$", tok):
+            if tok not in self.names:
+                self.fail("unknown name %s" % tok)
+            return ("v", tok)
+        self.fail("unexpected token %r" % tok)
+
+
+def _expr_top(self):
+    # condition may be parenthesised: try `( C ) ? ...` first
+    save = self.i
+    if self.peek() == "(":
+        self.eat("(")
+        c = self.cmp()
+        if c[0] == "cmp" and self.peek() == ")":
+            self.eat(")")
+            if self.peek() == "?":
+                self.eat("?")
+                a = self.expr()
+                self.eat(":")
+                b = self.expr()
+                e = ("ite", c[1], c[2], c[3], a, b)
+                if self.peek() is not None:
+                    self.fail("trailing tokens")
+                return e
+        self.i = save
+    e = self.expr()
+    if self.peek() is not None:
+        self.fail("trailing tokens")
+    return e
+
+
+_P.expr_top = _expr_top
+
+
+def lean_expr(e):
+    k = e[0]
+    if k == "v":
+        return '(.v "%s")' % e[1]
+    if k == "n":
+        return "(.n %d)" % e[1]
+    if k in ("sub", "add"):
+        return "(.%s %s %s)" % (k, lean_expr(e[1]), lean_expr(e[2]))
+    if k == "ite":
+        return "(.ite %s %s %s %s %s)" % ("true" if e[1] == "<" else "false", lean_expr(e[2]), lean_expr(e[3]), lean_expr(e[4]), lean_expr(e[5]))
+    raise TranslateError("internal: expression node %r" % (e,))
+
+
+def resize_shape(cb):
+    """The arithmetic of DynamicRingBuffer::resize as expression trees (count, toCopy, startTail, dropped, the two final
+    stores); everything around them (names, loop, buffer swap, order of statements) is pinned literally."""
+    body = " ".join(strip_comments(cxxscan.function_body(cb, "resize", nth=0)).split())
+    pat = (r"^auto newCapacity = nextPowerOfTwo\(newRequestedCapacity\); auto newMask = newCapacity - 1; "
+           r"auto newBuffer = std::make_unique<T\[\]>\(newCapacity\); "
+           r"auto tail = _tail\.load\(std::memory_order_relaxed\); auto head = _head\.load\(std::memory_order_relaxed\); "
+           r"std::size_t count = (?P<count>[^;]+); std::size_t toCopy = (?P<toCopy>[^;]+); auto startTail = (?P<start>[^;]+); "
+           r"for \(std::size_t i = 0; i < toCopy; \+\+i\) \{ newBuffer\[i\] = std::move\(_buffer\[\(startTail \+ i\) & _mask\]\); \} "
+           r"std::size_t dropped = (?P<dropped>[^;]+); "
+           r"_buffer = std::move\(newBuffer\); _capacity = newCapacity; _mask = newMask; "
+           r"_tail\.store\((?P<newTail>[^,;]+), std::memory_order_relaxed\); _head\.store\((?P<newHead>[^,;]+), std::memory_order_relaxed\); "
+           r"return dropped;$")
+    m = re.match(pat, body)
+    if not m:
+        raise TranslateError("DynamicRingBuffer::resize no longer has the modelled statement sequence (names, copy loop "
+                             "`newBuffer[i] = std::move(_buffer[(startTail + i) & _mask])` for i < toCopy, buffer/capacity/mask swap, two stores): %r" % body[:600])
+    out = {}
+    names = ["head", "tail", "newCapacity"]
+    for key, var in (("count", "count"), ("toCopy", "toCopy"), ("start", "startTail"), ("dropped", None), ("newTail", None), ("newHead", None)):
+        out[key] = _P(m.group(key), names, "resize::" + key).expr_top()
+        if var:
+            names = names + [var]
+    return out
+
+
+def mask_pins(src):
+    """`kMask = Capacity - 1`, `_mask(_capacity - 1)` with `_capacity(nextPowerOfTwo(requestedCapacity))`, and the power-of-two
+    static_assert of the static class - the model's `mask := capacity - 1` / `mkDynamic` rest on these."""
+    s = " ".join(strip_comments(src).split())
+    for what, pat in (("static constexpr std::size_t kMask = Capacity - 1;", r"static constexpr std::size_t kMask = Capacity - 1;"),
+                      ("static_assert((Capacity & (Capacity - 1)) == 0", r"static_assert\(\(Capacity & \(Capacity - 1\)\) == 0,"),
+                      ("static_assert(Capacity > 0", r"static_assert\(Capacity > 0,"),
+                      ("DynamicRingBuffer ctor init list",
+                       r"explicit DynamicRingBuffer\(std::size_t requestedCapacity\) : _capacity\(nextPowerOfTwo\(requestedCapacity\)\) , "
+                       r"_mask\(_capacity - 1\) , _buffer\(std::make_unique<T\[\]>\(_capacity\)\) , _head\{0\} , _tail\{0\} \{ \}"),
+                      ("RingBuffer ctor", r"RingBuffer\(\) noexcept : _head\{0\}, _tail\{0\} \{\}"),
+                      ("member order _capacity before _mask before _buffer", r"std::size_t _capacity; std::size_t _mask; std::unique_ptr<T\[\]> _buffer;")):
+        if not re.search(pat, s):
+            raise TranslateError("ring_buffer.hpp: `%s` not found in the modelled form (mask = capacity - 1, capacity = nextPowerOfTwo(request))" % what)
+
+
 def gen(repo):
     src = read(repo, FILE)
+    mask_pins(src)
+    dyn_cb = class_body(src, "DynamicRingBuffer")
+    shifts = npot_shifts(dyn_cb)
+    rz = resize_shape(dyn_cb)
     rows = []
     for cls in CLASSES:
         cb = class_body(src, cls)
@@ -142,5 +320,13 @@ def gen(repo):
     t += "/-- every access to the ring counters and to the slot array, per method in source order:\n(class, method#overload, variable, load|store|read|write|assign, memory order or `plain`) -/\n"
     t += "def ring : List (String × String × String × String × String) := [\n"
     t += ",\n".join('  ("%s", "%s", "%s", "%s", "%s")' % r for r in rows)
-    t += "]\nend Iora.Gen.Orders\n"
+    t += "]\n"
+    t += "/-- `DynamicRingBuffer::nextPowerOfTwo` is `if (v == 0) return 1; v--; v |= v >> K (for K in this list, in order); return v + 1`\n(shape enforced by the translator) on a 64-bit `std::size_t` -/\n"
+    t += "def npotShifts : List UInt64 := [%s]\n" % ", ".join(str(k) for k in shifts)
+    t += "/-- expression trees of the arithmetic in `DynamicRingBuffer::resize` (64-bit unsigned; `.ite true a b t e` = `a < b ? t : e`,\n`.ite false a b t e` = `a > b ? t : e`) -/\n"
+    t += "inductive RE where\n  | v (name : String) | n (k : Nat) | sub (a b : RE) | add (a b : RE) | ite (lt : Bool) (a b t e : RE)\n  deriving Repr\n"
+    for key, nm in (("count", "resizeCount"), ("toCopy", "resizeToCopy"), ("start", "resizeStart"), ("dropped", "resizeDropped"),
+                    ("newTail", "resizeNewTail"), ("newHead", "resizeNewHead")):
+        t += "def %s : RE := %s\n" % (nm, lean_expr(rz[key]))
+    t += "end Iora.Gen.Orders\n"
     return "IoraModel/Gen/Orders.lean", t
